@@ -7,7 +7,7 @@ import re
 
 from lib import vlib
 from props import reader_common as rc
-from translator import reader_tables
+from translator import reader_tables, reader_repl
 
 META = {
     "technique": "Coq proof over partial trees (a printed tree cut at any token boundary, inside any separator, tag or "
@@ -83,7 +83,7 @@ def run(chk):
         "'cutting between top-level forms reads without error' also requires the forms read to be the forms completed so far",
         "REPL.runsource is observed with runcode stubbed out (generated programs are not executed)",
     ]
-    chk.prove("Props/C19.v", ["Props/C19.vo", "Reader/Extract.vo"], [reader_tables.translate])
+    chk.prove("Props/C19.v", ["Props/C19.vo", "Reader/Extract.vo"], [reader_tables.translate, reader_repl.translate])
     thorough = chk.tier == "thorough"
     oracles = rc.Oracles()
     try:
